@@ -32,6 +32,10 @@ def main():
     if d.get("detail", {}).get("fmt"):
         variant["fmt"] = d["detail"]["fmt"]
     traces = pipeline.exec_scripts(mod, fn, [d["script"]], [variant], procs=1)
+    if layer == "topo":
+        from harness import tlc
+        from harness.props import topo_common
+        tcfg = tlc.write_cfg(topo_common.TRACE_CFG, {"Flavour": d["sig"]["variant"]})
     verdicts, _ = pipeline.validate_traces(tmod, tcfg, traces)
     v = verdicts[traces[0]["tid"]]
     t = traces[0]
